@@ -51,6 +51,9 @@ def configs(tier, seed):
         _cfg((4, 4, 2), [(2, 2, 2)], 1, "uint16", "uint16", dlay="sharded", shspec=(2, 0, 0, "gzip", "raw"), cost=3),
         _cfg((4, 2, 2), [(2, 2, 2)], 1, "uint8", "uint8", dlay="sharded", shspec=(1, 1, 1, "gzip", "gzip"), cost=3),
         _cfg((4, 2, 2), [(2, 2, 2)], 1, "uint8", "uint16", slay="sharded", dlay="gzip", shspec=(1, 0, 0, "gzip", "gzip"), cost=3),
+        # compressed_segmentation on both sides with different block sizes (the chunks must be re-encoded)
+        _cfg((2, 2, 1), [(2, 2, 1)], 1, "uint32", "uint32", senc="compressed_segmentation", denc="compressed_segmentation",
+             sblock=[2, 2, 1], dblock=[1, 2, 1], cost=8),
         # scales stored with two chunk sizes side by side (the second not a multiple of the first)
         _cfg((4, 4, 2), [(4, 4, 2)], 1, "uint8", "uint16", dlay="flat", alt_cs={"0": [2, 2, 2]}, copy_info=True, cost=3),
         _cfg((3, 2, 2), [(2, 2, 2), (2, 1, 1)], 1, "uint16", "uint16", slay="gzip", alt_cs={"0": [3, 1, 1], "1": [1, 1, 1]}, cost=3),
@@ -84,7 +87,7 @@ def configs(tier, seed):
     return out
 
 
-def _info(cfg, dtype, enc, layout):
+def _info(cfg, dtype, enc, layout, block=None):
     scales = []
     size = list(cfg["size"])
     cubic = "sharded" in (cfg["slay"], cfg["dlay"])      # the tool keeps the chunk grid: both sides share the chunk sizes
@@ -93,7 +96,7 @@ def _info(cfg, dtype, enc, layout):
         sc = dict(key=f"s{i}", size=list(size), chunk_sizes=[list(cs) if not cubic else [max(cs)] * 3] + ([list(alt)] if alt else []), encoding=enc,
                   resolution=[2 ** i] * 3, voxel_offset=[0, 0, 0])
         if enc == "compressed_segmentation":
-            sc["compressed_segmentation_block_size"] = [2, 2, 2]
+            sc["compressed_segmentation_block_size"] = list(block or [2, 2, 2])
         if layout == "sharded":
             m, s_, p_, ienc, denc_ = cfg.get("shspec", (1, 1, 0, "raw", "raw"))
             sc["sharding"] = {"@type": "neuroglancer_uint64_sharded_v1", "minishard_bits": m, "shard_bits": s_, "preshift_bits": p_,
@@ -120,8 +123,8 @@ def _same_file(a, b):
 def H_convert(ctx, cfg):
     W = V.World()
     src_url, dst_url = "/mfs/src", "/mfs/dst"
-    sinfo = _info(cfg, cfg["sd"], cfg["senc"], cfg["slay"])
-    dinfo = _info(cfg, cfg["dd"], cfg["denc"], cfg["dlay"])
+    sinfo = _info(cfg, cfg["sd"], cfg["senc"], cfg["slay"], cfg.get("sblock"))
+    dinfo = _info(cfg, cfg["dd"], cfg["denc"], cfg["dlay"], cfg.get("dblock"))
     W.put_info(src_url, sinfo)
     levels = []
     allv = []
@@ -220,8 +223,8 @@ def replay(cfg, cex):
     acc_mod = load.mod("accessor")
     with tempfile.TemporaryDirectory() as td:
         src_url, dst_url = os.path.join(td, "src"), os.path.join(td, "dst")
-        sinfo = _info(cfg, cfg["sd"], cfg["senc"], cfg["slay"])
-        dinfo = _info(cfg, cfg["dd"], cfg["denc"], cfg["dlay"])
+        sinfo = _info(cfg, cfg["sd"], cfg["senc"], cfg["slay"], cfg.get("sblock"))
+        dinfo = _info(cfg, cfg["dd"], cfg["denc"], cfg["dlay"], cfg.get("dblock"))
         sacc = acc_mod.get_accessor_for_url(src_url, dict(_opts(cfg["slay"]), **({"sharding": "1,1,0"} if cfg["slay"] == "sharded" else {})))
         if cfg["slay"] == "sharded":
             sacc.info = copy.deepcopy(sinfo)
